@@ -43,7 +43,52 @@ POLICY_BRANCHES = ["add.oversize", "add.room", "add.update", "add.evict.1", "add
                    "add.reject.1", "add.tie", "add.fewer_than_samples", "add.over_budget_before", "remove.charged",
                    "remove.absent", "update.charged", "update.absent", "maxcost", "maxcost.below_used", "clear", "cost", "cap"]
 
+def cache_job(fields, name="cache", extra=None, quick_ops=200, quick_lives=20, thorough_ops=400, thorough_lives=60, seeds=None):
+    extra = extra or []
+    return {"name": name, "driver": "cache", "fields": fields,
+            "gen": lambda tier, seed: ["cache", "--seed", str(seed), "--ops", str(quick_ops if tier == "quick" else thorough_ops),
+                                       "--lives", str(quick_lives if tier == "quick" else thorough_lives)] + extra,
+            "seeds": seeds or {"quick": 2, "thorough": 14}, "timeout": 3000}
+
+
+CACHE_ASSUME = [
+    "granularity: one client call (or one half of a blocking call) and one iteration of the processor loop are atomic steps; interleavings inside a call (between its store step and its buffer send) are explored by the stepped harness only where yield points exist",
+    "popularity estimates and HashMap iteration orders are oracle inputs observed from the implementation; the estimator itself is the subject of C13",
+    "the stepped harness parks the two workers and drives ParkedProcessor::step, which mirrors the arms of the worker loop; the real loop is exercised by the live-mode jobs",
+]
+
 PROPS = {
+    "C03": {
+        "module": "StrettoModel.Props.C03",
+        "jobs": [cache_job(r"\.(store|expiry|ret|callbacks|len)$", extra=["--w-ttl", "70"])],
+        "branches": ["get.hit", "get.expired", "get.miss", "getttl.remaining", "getttl.max", "getttl.none", "insert.ttl", "insert.update",
+                     "tick.reclaimed", "tick.recheck_skipped", "getmut.hit"],
+        "assumptions": CACHE_ASSUME + ["the clock is monotone (virtual clock hook in ttl.rs); time is nanoseconds, so every placement relative to second boundaries is a value of `now`"],
+    },
+    "C09": {
+        "module": "StrettoModel.Props.C09",
+        "jobs": [cache_job(r"\.(store|expiry|ret|callbacks|buffer)$", extra=["--w-ttl", "50"])],
+        "branches": ["iip.absent", "iip.expired", "iip.update", "iip.vetoed_or_conflict", "insert.update", "insert.new_over_resident"],
+        "assumptions": CACHE_ASSUME + ["validators are table-driven (always, never, new>old, same parity); the theorems quantify over every predicate"],
+    },
+    "C11": {
+        "module": "StrettoModel.Props.C11",
+        "jobs": [cache_job(r"\.(store|expiry|policy|buffer|metrics|ret|callbacks|len|clear)$", extra=["--w-clear", "8", "--w-ttl", "40"])],
+        "branches": ["clear.blocked.buf0", "clear.blocked.buf1", "clear.blocked.buf2", "p.clear.buf0", "p.clear.buf1", "p.clear.buf2", "ret.clear"],
+        "assumptions": CACHE_ASSUME,
+    },
+    "C12": {
+        "module": "StrettoModel.Props.C12",
+        "jobs": [cache_job(r"\.(closed|ret|buffer|store|policy|close|wait|clear)$", extra=["--w-close", "4", "--w-wait", "5"], quick_lives=30)],
+        "branches": ["close.blocked", "close.ok", "p.stop", "w.stop", "ret.close", "insert.closed", "get.closed", "remove.closed", "wait.ok", "clear.ok.buf0"],
+        "assumptions": CACHE_ASSUME + ["that the OS threads of the workers are gone after close()/drop is observed by the live-mode job, not proved"],
+    },
+    "C16": {
+        "module": "StrettoModel.Props.C16",
+        "jobs": [cache_job(r"\.(policy|callbacks|store)$")],
+        "branches": ["padd.room", "padd.evicting", "padd.rejected", "padd.oversize", "padd.already_charged", "p.item.update", "tick.reclaimed"],
+        "assumptions": CACHE_ASSUME + ["Dom: cost + item_size does not overflow i64"],
+    },
     "C01": {
         "module": "StrettoModel.Props.C01",
         "jobs": [policy_job(r"^pol\.(add|add\.state|remove|update|clear|maxcost|cost|cap)$")],
